@@ -64,10 +64,29 @@ fn drain_chunk(reader: Box<dyn Read>, cap: usize) -> Vec<Sx> {
     out
 }
 
+/// a record whose `Serialize` fails after it has already emitted some bytes (like `(u64, PathBuf)` with a non-UTF-8 path)
+struct Flaky;
+impl serde::Serialize for Flaky {
+    fn serialize<S: serde::Serializer>(&self, ser: S) -> Result<S::Ok, S::Error> {
+        use serde::ser::SerializeTuple;
+        let mut t = ser.serialize_tuple(3)?;
+        t.serialize_element(&7u64)?;
+        t.serialize_element(&[1u8, 2, 3])?;
+        Err(serde::ser::Error::custom("planted serialization failure"))
+    }
+}
+
 pub fn run_chunk(args: &[Sx]) -> Sx {
     with_panic(|emit| {
         let stack = args[0].atom();
         let items: Vec<Vec<u8>> = args[1].tagged("items").iter().map(blob).collect();
+        // in half of the cases an unrelated dump that fails inside `Serialize` runs first on this thread: whatever it
+        // leaves behind (scratch buffers, thread-locals) must not leak into the dump under test
+        if (items.len() + args[2].tagged("wplan").len()) % 2 == 1 {
+            let mut sink: Vec<u8> = Vec::new();
+            let r = verif_dump(&mut sink, vec![Flaky, Flaky]);
+            if r.is_ok() { emit(a("ORACLE-FAIL:dump-of-an-unserializable-record-returned-Ok")); }
+        }
         let fired = Rc::new(RefCell::new(0usize));
         let w = FaultyW { stored: Rc::new(RefCell::new(Vec::new())), plan: Rc::new(RefCell::new(args[2].tagged("wplan").to_vec())), fired: fired.clone() };
         let res: Result<(), String> = match stack {
@@ -193,6 +212,29 @@ pub fn run_xsort(args: &[Sx]) -> Sx {
             }
             emit(tag("out", out));
             return;
+        }
+        // records whose serialized form is EMPTY (unit, unit struct): n in, n out, for the same configuration
+        {
+            #[derive(serde::Serialize, serde::Deserialize, PartialEq, Eq, PartialOrd, Ord, Clone, Debug)]
+            struct Nothing;
+            let n = items.len();
+            let d2 = tempfile::tempdir_in(scratch()).expect("glue: tempdir");
+            let s2 = builder(&args[0], &args[1], &args[2], d2.path()).build().expect("glue: build sorter");
+            let it = s2.sort(vec![(); n]).expect("sort of unit records returned an error");
+            if it.len() != n || it.filter(|r| r.is_ok()).count() != n { emit(a("ORACLE-FAIL:unit-records-lost")); }
+            let it = s2.sort_by(vec![Nothing; n], |_, _| Ordering::Equal).expect("sort of unit-struct records returned an error");
+            if it.len() != n || it.filter(|r| r.is_ok()).count() != n { emit(a("ORACLE-FAIL:unit-struct-records-lost")); }
+        }
+        // small inputs: the sorted key sequence is the same however the returned iterator is walked
+        // (every walk builds a fresh sorter: only a sample of the small cases pays for it)
+        if items.len() <= 12 && items.iter().all(|x| x.2.len() <= 64) && (items.iter().map(|x| x.0 as usize + x.1 as usize).sum::<usize>() + items.len()) % 6 == 0 {
+            let mk = || {
+                let d3 = tempfile::tempdir_in(scratch()).expect("glue: tempdir");
+                let s3 = builder(&args[0], &args[1], &args[2], d3.path()).build().expect("glue: build sorter");
+                let v: Vec<Option<u64>> = Vec::new(); let _ = v;
+                s3.sort_by(items.clone(), cmp).expect("sort_by returned an error").map(|r| r.ok().map(|x| x.0))
+            };
+            if let Some(w) = walk_check(&mk) { emit(a(format!("ORACLE-FAIL:sorted-stream-walked-by-{}", w))); }
         }
         let it = sorter.sort_by(items, cmp).expect("sort_by returned an error");
         emit(Sx::L(vec![a("len"), a(it.len())]));
@@ -324,6 +366,16 @@ pub fn run_tmp(args: &[Sx]) -> Sx {
         std::fs::write(conf.join("keep.txt"), b"x").unwrap();
         std::fs::create_dir(conf.join("keepdir")).unwrap();
         std::fs::write(conf.join("keepdir").join("inner"), b"y").unwrap();
+        // entries that LOOK like what a crashed sorter might have left behind (tempfile-style names, empty, old): they were
+        // there before the sorter was built, so they must still be there afterwards
+        for d in [&conf, &other] {
+            for (name, is_dir, age_days) in [(".tmpZk3P9d", true, 3u64), (".tmpAAAAAA", true, 400), (".tmp_cache", true, 30), (".tmpQ1w2E3", false, 9), ("bed-utils-old", true, 50)] {
+                let p = d.join(name);
+                if is_dir { std::fs::create_dir(&p).unwrap(); } else { std::fs::write(&p, b"").unwrap(); }
+                let t = std::time::SystemTime::now() - std::time::Duration::from_secs(age_days * 86400);
+                if let Ok(f) = std::fs::File::open(&p) { let _ = f.set_modified(t); }
+            }
+        }
         let n = args[1].usize();
         let exit = args[2].atom().to_string();      // returned | panic_input | panic_cmp
         let at = args[3].usize();                  // position of the panic / number of items consumed
